@@ -268,6 +268,22 @@ pub fn build(
                     );
                 }
 
+                // A virtual function is dispatched through the vftable pointer of an object,
+                // so the generated wrapper needs a receiver to load that pointer from.
+                if let Some(function) = functions.iter().find(|f| {
+                    !f.arguments.iter().any(|a| {
+                        matches!(
+                            a,
+                            grammar::Argument::ConstSelf | grammar::Argument::MutSelf
+                        )
+                    })
+                }) {
+                    anyhow::bail!(
+                        "virtual function `{}` of type `{resolvee_path}` has no `&self` or `&mut self` argument",
+                        function.name
+                    );
+                }
+
                 // Extract size attribute
                 let mut size = None;
                 for attribute in attributes {
